@@ -89,8 +89,8 @@ struct Ctx {
   std::string where() const { std::ostringstream o; o << "scenario=" << scen << " mode=" << mode_name(mode); if (mode == ALLOC || mode == ABANDON) o << " k=" << k; if (mode == WEIGHT) o << " threshold=" << wthreshold; return o.str(); }
   void fail(const std::string& what, const std::string& detail) {
     failed = true;
-    if (mode == DRY || mode == COUNT)   // nothing was injected: not a C14 matter, never let it look like one
-      hx::violation("harness.bug.faultinj.nofault." + scen + "." + what, where() + " :: " + detail);
+    if (mode == DRY || mode == COUNT)   // nothing was injected: the operation misbehaves on its own; not a C14 matter, never let it look like one
+      hx::violation("nofault." + scen + "." + what, where() + " :: " + detail);
     else
       hx::violation(std::string("C14.") + mode_family(mode) + "." + scen + "." + what, where() + " exception=" + (threw ? exc : "none") + " :: " + detail);
   }
